@@ -23,11 +23,12 @@ FUNCS = [
 
 def configs(tier):
     if tier == "quick":
-        return [dict(T=1, nmax=5, variant="plain"), dict(T=1, nmax=5, variant="fail"), dict(T=1, nmax=4, variant="early"),
-                dict(T=2, nmax=2, variant="plain"), dict(T=2, nmax=2, variant="fail"), dict(T=2, nmax=2, variant="early")]
+        return [dict(c, query_timeout_s=150) for c in [dict(T=1, nmax=5, variant="plain"), dict(T=1, nmax=5, variant="fail"), dict(T=1, nmax=4, variant="early"),
+                dict(T=2, nmax=2, variant="plain"), dict(T=2, nmax=2, variant="fail"), dict(T=2, nmax=2, variant="early")]]
     return [dict(T=1, nmax=7, variant=v) for v in ("plain", "fail", "early")] + \
            [dict(T=2, nmax=3, variant=v) for v in ("plain", "fail", "early")] + \
-           [dict(T=3, nmax=2, variant="plain"), dict(T=3, nmax=1, variant="fail"), dict(T=3, nmax=2, variant="early")]
+           [dict(T=3, nmax=2, variant="plain"), dict(T=3, nmax=1, variant="fail"), dict(T=3, nmax=2, variant="early"),
+            dict(T=1, nmax=1, variant="early"), dict(T=1, nmax=2, variant="plain")]
     # measured: T=2 n<=4 'fail' and T=3 n<=2 'fail' exceed the 600 s per-query solver budget (unknown) -> outside the claim
 
 
@@ -39,7 +40,8 @@ def run_config(cfg):
     T, nmax, variant = cfg["T"], cfg["nmax"], cfg["variant"]
     t0 = time.time()
     try:
-        comp = pocomp.Composition(lp, T, nmax, fail=(variant == "fail"), early=(variant == "early"))
+        comp = pocomp.Composition(lp, T, nmax, fail=(variant == "fail"), early=(variant == "early"),
+                                  query_timeout_s=cfg.get("query_timeout_s", 600))
     except pocomp.Inconclusive as inc:
         st.inconclusive.append(f"{cfg}: {inc}")
         return st
